@@ -129,7 +129,7 @@ func c02(c *ctx) {
 		}
 		// enforceHeights false is what the code does today; the committee must be loaded at the certificate's root height
 		vs := c.p.path(argOf(cs, 0))
-		r.Check(strings.Contains(vs, "LoadCommittee(") && strings.Contains(vs, ".BlockAndCertificate.Header.RootHeight)"), "R3/Check-committee", c.p.Pos(cs.Pos()),
+		r.Check(has(vs, "LoadCommittee(") && has(vs, ".BlockAndCertificate.Header.RootHeight)"), "R3/Check-committee", c.p.Pos(cs.Pos()),
 			"committee = "+vs, "the validator set passed to Check is "+vs+", expected LoadCommittee(_, qc.Header.RootHeight): the certificate would be verified against the wrong committee")
 		recv := c.p.path(recvOf(cs))
 		r.Check(recv == "$1.BlockAndCertificate", "R3/Check-receiver", c.p.Pos(cs.Pos()), "receiver = "+recv, "Check is invoked on "+recv+", not on the message's certificate")
@@ -276,7 +276,7 @@ func c02(c *ctx) {
 					a0, a1 := c.p.path(cc.Args[0]), c.p.path(cc.Args[1])
 					r.Check(a0 == "$1.SignBytes()" && a1 == "$0.Signature", "R4/AggregateSignature.Check/verify-operands", c.p.Pos(in.Pos()), "VerifyBytes("+a0+", "+a1+")", "VerifyBytes is given ("+a0+", "+a1+"), expected (sb.SignBytes(), x.Signature)")
 					rc := c.p.path(cc.Value)
-					r.Check(strings.Contains(rc, "$2.MultiKey.Copy()"), "R4/AggregateSignature.Check/verify-key", c.p.Pos(in.Pos()), "key = "+rc, "the verifying key is "+rc+", not a copy of the validator set's MultiKey")
+					r.Check(has(rc, "$2.MultiKey.Copy()"), "R4/AggregateSignature.Check/verify-key", c.p.Pos(in.Pos()), "key = "+rc, "the verifying key is "+rc+", not a copy of the validator set's MultiKey")
 				}
 			})
 		}
